@@ -233,12 +233,62 @@ def add_true_pred(rng, text):
     return ''.join(parts)
 
 
+ATTR_STEPS = ['@%s', '@%s', 'attribute::%s', '@*', 'attribute::text()', 'attribute::comment()', 'attribute::node()',
+              '@x:%s']
+AFTER_ATTR = ['%s', 'text()', '@%s', 'self::%s', '.', 'descendant::%s', 'comment()', '*', 'node()']
+
+
+def rand_attrshape(rng, doc):
+    """a location path with an attribute step where paths rarely have one: before the last step (`a/@b/c`), with a
+    node-type test (`a/attribute::text()`), after a KMP fragment (`descendant::a/b/@n`) — the shapes behind the
+    fixed findings C17-simple-interior-attribute and C17-simple-attribute-false; names and attributes are those
+    of a random chain of `doc`, so the element steps usually match"""
+    chain = [doc]
+    while 'e' in chain[-1] and [k for k in chain[-1].get('k', []) if 'e' in k] and rng.random() < 0.8:
+        chain.append(rng.choice([k for k in chain[-1]['k'] if 'e' in k]))
+    owner = chain[-1]
+    names = [n['e'][1] for n in chain[1:]] or [rng.choice(G.NAMES)]
+    r = rng.random()
+    if r < 0.4:
+        head = '/'.join(names)
+    elif r < 0.7:
+        head = rng.choice(['descendant::', '//', 'descendant-or-self::']) + '/'.join(names[-2:])
+    else:
+        k = rng.randrange(len(names))
+        head = '/'.join(names[:k] + [rng.choice(['descendant::', 'descendant-or-self::']) + names[k]] + names[k + 1:])
+    if rng.random() < 0.15:
+        head = 'self::%s/%s' % (doc['e'][1], head)
+    attrs = [a[1] for a in owner.get('a', []) if not a[0]] or list(G.ATTR_NAMES)
+    step = rng.choice(ATTR_STEPS)
+    if '%s' in step:
+        step = step % (rng.choice(attrs) if rng.random() < 0.8 else rng.choice(list(G.ATTR_NAMES)))
+    text = head + '/' + step
+    if rng.random() < 0.45:
+        after = rng.choice(AFTER_ATTR)
+        if '%s' in after:
+            after = after % rng.choice(list(G.NAMES) + attrs)
+        text += '/' + after
+    return text
+
+
 def gen_case(rng):
     doc = G.rand_doc(rng, rng.choice([5, 7, 9, 12]), deep=rng.random() < 0.5)
     r = rng.random()
     case = {'doc': doc}
     if rng.random() < 0.15:
         case['ns_events'] = True
+    if rng.random() < 0.08:
+        text = rand_attrshape(rng, doc)
+        if rng.random() < 0.3:
+            # in a union a `False` from one operand keeps the others from matching the event
+            parts = [text, rng.choice(['*', './/*', G.rand_locpath_for(rng, doc, G.SIMPLE)])]
+            if rng.random() < 0.5:
+                parts.reverse()
+            case.update(kind='union', path='|'.join(parts), parts=parts)
+        else:
+            case.update(kind='strategies', path=text)
+        case['attrshape'] = True
+        return case
     if rng.random() < 0.14:
         # aimed at SimplePathStrategy's hand-over between fragments and its KMP fall-back
         doc, text = G.rand_fragcase(rng)
@@ -361,6 +411,10 @@ def frag_stats(text, doc, res):
             res.count('simple:multi-fragment')
         if any(f[2] is not None for f in fr):
             res.count('simple:attr-end')
+            if len(ne) >= 2 or (fr and not fr[0][0]):
+                res.count('simple:attr-end-after-kmp-fragment')
+            if type(fr[-1][2]).__name__ != 'LocalNameTest':
+                res.count('simple:attr-end-node-type-test')
         if any(st[0] is P.SELF for st in p[1:]):
             res.count('simple:inner-self')
         if any(x > 0 for f in fr for x in f[1]):
@@ -384,6 +438,13 @@ def check_cases(cases, res):
     for i, case in enumerate(cases):
         res.evaluations += 1
         res.count('kind:' + case['kind'])
+        if case.get('attrshape'):
+            res.count('gen:attrshape')
+            try:
+                if any(any(st[0] is P.ATTRIBUTE for st in p[:-1]) for p in P.PathParser(case['path']).parse()):
+                    res.count('gen:attrshape:interior-attribute-step')
+            except Exception:  # noqa
+                pass
         f = oracle_case(case)
         if f:
             res.failures.append(f)
@@ -410,6 +471,12 @@ def check_cases(cases, res):
                 ask('frags', i, proto.line(Atom('C17'), Atom('frags'), text), fr)
             sc = real_scope(text)
             ask('inscope', i, proto.line(Atom('C17'), Atom('inscope'), text), sc)
+            # every path SimplePathStrategy supports lies in the scope of simple_eq_generic (the full statement)
+            fs = [Atom('ok')] + [B(True) if P.SimplePathStrategy.supports(p) else N for p in paths]
+            ask('fullscope', i, proto.line(Atom('C17'), Atom('fullscope'), text), fs)
+            for x in fs[1:]:
+                if x is not N:
+                    res.count('simple:in-full-theorem-scope')
             for x in sc[1:]:
                 if isinstance(x, list):
                     res.count('simple:in-fragment-theorem-scope' if x[:2] == [B(True), B(True)]
